@@ -13,7 +13,7 @@ SUITES = {
     "n-codec": {"quick": 120, "thorough": 6000, "shards": 4},
     "n-replay": {"quick": 300, "thorough": 20000, "shards": 1},
     "n-world": {"quick": 320, "thorough": 6000, "shards": 8},
-    "t-udp": {"quick": 120, "thorough": 4000, "shards": 8},
+    "t-udp": {"quick": 280, "thorough": 4000, "shards": 8},
 }
 
 R_ALL = ["r-pair", "r-hostile", "r-server"]
